@@ -2432,12 +2432,16 @@ class Controller:
 
     def on_hci_le_read_local_p_256_public_key_command(
         self, _command: hci.HCI_LE_Read_Local_P_256_Public_Key_Command
-    ) -> hci.HCI_StatusReturnParameters:
+    ) -> None:
         '''
         See Bluetooth spec Vol 4, Part E - 7.8.36 LE Read P-256 Public Key Command
         '''
         # TODO create key and send hci.HCI_LE_Read_Local_P-256_Public_Key_Complete event
-        return hci.HCI_StatusReturnParameters(hci.HCI_ErrorCode.SUCCESS)
+        self._send_hci_command_status(
+            hci.HCI_ErrorCode.UNSUPPORTED_FEATURE_OR_PARAMETER_VALUE_ERROR,
+            _command.op_code,
+        )
+        return None
 
     def on_hci_le_add_device_to_resolving_list_command(
         self, _command: hci.HCI_LE_Add_Device_To_Resolving_List_Command
